@@ -1,4 +1,5 @@
 //! Adapter for the Turtle parser from [RIO](https://github.com/Tpt/rio/blob/master/turtle/src/turtle.rs)
+use super::IriCheckedSource;
 use rio_turtle::TurtleParser as RioTurtleParser;
 use sophia_api::parser::TripleParser;
 use sophia_iri::Iri;
@@ -13,7 +14,7 @@ pub struct TurtleParser {
 }
 
 impl<B: BufRead> TripleParser<B> for TurtleParser {
-    type Source = StrictRioTripleSource<RioTurtleParser<B>>;
+    type Source = IriCheckedSource<StrictRioTripleSource<RioTurtleParser<B>>>;
     fn parse(&self, data: B) -> Self::Source {
         let base = self
             .base
@@ -21,7 +22,7 @@ impl<B: BufRead> TripleParser<B> for TurtleParser {
             .map(Iri::unwrap)
             .map(oxiri::Iri::parse)
             .map(Result::unwrap);
-        StrictRioTripleSource(RioTurtleParser::new(data, base))
+        IriCheckedSource(StrictRioTripleSource(RioTurtleParser::new(data, base)))
     }
 }
 
